@@ -100,6 +100,42 @@ theorem nonsense_size_refused (decode : List UInt8 → Option Info) (r : Registr
 
 example : be32 255 255 255 255 ≤ 0 ∧ be32 127 255 255 255 > maxIdentifyBody ∧ be32 0 0 0 0 ≤ 0 := by decide
 
+/-- The JSON decoder sees exactly the declared `bodyLen` bytes, and only white space may follow the
+document: an IDENTIFY whose declared body has any other byte after the first JSON value is
+refused with `E_BAD_BODY`, nothing is changed — and, accepted or not, the command loop continues
+with the bytes AFTER the declared body (`body.drop n`): no byte of a body is ever read as a
+command line. `value` (the parser of the first JSON value) is arbitrary. -/
+theorem identify_trailing_garbage_refused (value : List UInt8 → Option (Info × Nat)) (r : Registry) (p : Nat)
+    (now : Int) (a b c d : UInt8) (rest : List UInt8) (i : Info) (used : Nat)
+    (hi : identifiedB r p = false)
+    (hsz : 0 < be32 a b c d ∧ be32 a b c d ≤ maxIdentifyBody) (hlen : (be32 a b c d).toNat ≤ rest.length)
+    (hv : value (rest.take (be32 a b c d).toNat) = some (i, used))
+    (hg : ∃ x ∈ (rest.take (be32 a b c d).toNat).drop used, jsonWS x = false) :
+    ∃ m, execIdentify fixedV (unmarshal value) r p now (a :: b :: c :: d :: rest) =
+      .reply r (.err .badBody m) (rest.drop (be32 a b c d).toNat) := by
+  have hu : unmarshal value (rest.take (be32 a b c d).toNat) = none := by
+    unfold unmarshal
+    simp only [hv]
+    obtain ⟨x, hx, hws⟩ := hg
+    have : ((rest.take (be32 a b c d).toNat).drop used).all jsonWS = false := by
+      rw [List.all_eq_false]; exact ⟨x, hx, by simp [hws]⟩
+    simp [this]
+  unfold execIdentify
+  have h1 : ¬ be32 a b c d > maxIdentifyBody := by omega
+  have h2 : ¬ be32 a b c d ≤ 0 := by omega
+  have h3 : ¬ be32 a b c d < 0 := by omega
+  have h4 : ¬ rest.length < (be32 a b c d).toNat := by omega
+  refine ⟨ascii "IDENTIFY failed to decode JSON body", ?_⟩
+  simp only [hi, Bool.false_eq_true, if_false, fixedV, Bool.true_and, h1, h2, h3, h4, decide_false, hu]
+
+/-- non-vacuity: `{…}}` (one byte of garbage after a 2-byte document) is refused, `{…} ` is accepted, and in
+both cases `PING` after the body is the next command -/
+example :
+    let value : List UInt8 → Option (Info × Nat) := fun b => if b.take 2 = [123, 125] then some (⟨[104], [110], [118], 1, 2⟩, 2) else none
+    (handle fixedV (unmarshal value) init 1 0 (magicV1 ++ cmdIDENTIFY ++ [10, 0, 0, 0, 3, 123, 125, 125] ++ cmdPING ++ [10])).replies.length = 1 ∧
+    (handle fixedV (unmarshal value) init 1 0 (magicV1 ++ cmdIDENTIFY ++ [10, 0, 0, 0, 3, 123, 125, 32] ++ cmdPING ++ [10])).replies.length = 2 := by
+  decide
+
 /-- IDENTIFY bodies with a missing field (`broadcast_address`, `tcp_port`, `http_port`,
 `version`) are refused and change nothing. -/
 theorem identify_requires_fields (r : Registry) (p : Nat) (info : Info) (now : Int)
